@@ -155,9 +155,11 @@ def sc_name(i):
     return "INITIAL" if i == 1 else "SC%d" % i
 
 
-def print_rule_pattern(rule, rng, defs, posix=False):
+def print_rule_pattern(rule, rng, defs, posix=False, noscs=False):
     s = ""
-    if rule.get('scs') == '*':
+    if noscs:
+        pass
+    elif rule.get('scs') == '*':
         s += "<*>"
     elif rule.get('scs'):
         s += "<" + ",".join(sc_name(i) for i in rule['scs']) + ">"
@@ -188,12 +190,36 @@ def make_spec(prog, rng, options=None, actions=None, extra_top="", epilogue=None
     for i, (name, excl) in enumerate(prog.get('scs', [])):
         out.append("%s SC%d" % ("%x" if excl else "%s", i + 2))
     out.append("%%")
-    for i, p in enumerate(pats):
-        if prog['rules'][i].get('bar') and i + 1 < len(pats):
+    # start-condition scopes: a rule naming conditions [o] + inner is written  <o>{ <inner>{ rule }  next-rule-if-it-names-[o] }
+    # (the manual: a scope is the same as prefixing each enclosed rule; nested scopes add their conditions)
+    rules = prog['rules']
+    i = 0
+    while i < len(pats):
+        p = pats[i]
+        if rules[i].get('bar') and i + 1 < len(pats):
             out.append("%s\t|" % p)           # the '|' action: same action as the following rule
+            i += 1
             continue
         act = actions[i] if actions and actions.get(i) is not None else "tok(%d);" % (i + 1)
+        scs = rules[i].get('scs')
+        if prog.get('scoped') and isinstance(scs, list) and len(scs) >= 2 and not (i > 0 and rules[i - 1].get('bar')) and rng.chance(70):
+            outer, inner = scs[:1], scs[1:]
+            bare = print_rule_pattern(rules[i], rng.fork("sc%d" % i), defs, posix=prog.get('posix', False), noscs=True)
+            out.append("<%s>{" % sc_name(outer[0]))
+            out.append("<%s>{" % ",".join(sc_name(x) for x in inner))
+            out.append("%s\t{ %s }" % (bare, act))
+            out.append("}")
+            j = i + 1
+            while j < len(pats) and rules[j].get('scs') == outer and not rules[j].get('bar'):
+                bj = print_rule_pattern(rules[j], rng.fork("sc%d" % j), defs, posix=prog.get('posix', False), noscs=True)
+                aj = actions[j] if actions and actions.get(j) is not None else "tok(%d);" % (j + 1)
+                out.append("%s\t{ %s }" % (bj, aj))
+                j += 1
+            out.append("}")
+            i = j
+            continue
         out.append("%s\t{ %s }" % (p, act))
+        i += 1
     out.append("%%")
     out.append(epilogue or backends.epilogue(backend, nrules + 1))
     return "\n".join(out) + "\n"
